@@ -428,6 +428,10 @@ def get_model_parser(top_rule, comments_model, **kwargs):
             """
             old_debug_state = self.debug
 
+            # User classes whose attr methods are replaced by this parser
+            # (none until the text is parsed successfully).
+            self._user_classes_replaced = []
+
             try:
                 if debug is not None:
                     self.debug = debug
@@ -517,13 +521,20 @@ def get_model_parser(top_rule, comments_model, **kwargs):
                     self._replace_user_attr_methods_for_class(user_class)
                 else:
                     user_class._tx_instrumented += 1
+                self._user_classes_replaced.append(user_class)
 
         def _restore_user_attr_methods(self):
             """
             Restore original get/set/del(attr) methods on user
-            classes.
+            classes. Each parser undoes only its own replacement and
+            only once: the replacement is counted per class over all
+            parsers that are building models (e.g. imported models).
             """
-            for user_class in self.metamodel.user_classes.values():
+            user_classes, self._user_classes_replaced = (
+                self._user_classes_replaced,
+                [],
+            )
+            for user_class in user_classes:
                 if hasattr(user_class, "_tx_instrumented"):
                     user_class._tx_instrumented -= 1
                     if user_class._tx_instrumented == 0:
@@ -967,11 +978,16 @@ def parse_tree_to_objgraph(
 
         if is_main_model:
             models = get_included_models(model)
+            parsers = []
             try:
                 # filter out all models w/o resolver:
                 models = list(
                     filter(lambda x: hasattr(x, "_tx_reference_resolver"), models)
                 )
+
+                # The parsers of the models under construction (used to
+                # clean up the user classes if anything fails below).
+                parsers = [getattr(m, "_tx_parser", None) for m in models]
 
                 resolved_count = 1
                 unresolved_count = 1
@@ -1026,6 +1042,7 @@ def parse_tree_to_objgraph(
                 # (remove all of them, not only the model with errors,
                 # since, models with errors may be included in other models)
                 remove_models_from_repositories(models, models)
+                _abort_user_class_construction(parsers)
                 raise
 
         if metamodel.textx_tools_support and type(model) not in PRIMITIVE_PYTHON_TYPES:
@@ -1121,6 +1138,20 @@ def _remove_all_affected_models_in_construction(model):
         filter(lambda x: hasattr(x, "_tx_reference_resolver"), all_affected_models)
     )
     remove_models_from_repositories(all_affected_models, models_to_be_removed)
+    _abort_user_class_construction(
+        [getattr(m, "_tx_parser", None) for m in models_to_be_removed]
+    )
+
+
+def _abort_user_class_construction(parsers):
+    """
+    Loading failed: the models of the given parsers will never reach
+    (or complete) `_end_model_construction`, so the replacement of the
+    user classes attr methods done by the parsers is undone here.
+    """
+    for the_parser in parsers:
+        if the_parser is not None:
+            the_parser._restore_user_attr_methods()
 
 
 class ReferenceResolver:
